@@ -21,6 +21,9 @@ B = lambda *specs: ('burst', convs.enc(*specs))  # noqa
 # name -> (role, prefix steps, user engaged and has not ended the association?)
 STATES = {
     'Sta2': ('acceptor', [], False),
+    # like Sta2, but the local user answers whatever request gets indicated the way AssociationAcceptor.accept does:
+    # with an A-ASSOCIATE-AC that repeats the peer's titles, application context and user information
+    'Sta2-accepting': ('acceptor', [], False),
     'Sta3': ('acceptor', [B(convs.RQ_SPEC)], True),
     'Sta5': ('requestor', [U(convs.RQ_SPEC)], True),
     'Sta6-acc': ('acceptor', [B(convs.RQ_SPEC), U(convs.AC_SPEC)], True),
@@ -30,7 +33,7 @@ STATES = {
     'Sta13': ('acceptor', [B(convs.RQ_SPEC), U(convs.AC_SPEC), U(convs.ABORT_SU)], False),
 }
 STATE_NAMES = sorted(STATES)
-EXPECT_STATE = {'Sta2': 2, 'Sta3': 3, 'Sta5': 5, 'Sta6-acc': 6, 'Sta6-req': 6, 'Sta7': 7, 'Sta8': 8, 'Sta13': 13}
+EXPECT_STATE = {'Sta2': 2, 'Sta2-accepting': 2, 'Sta3': 3, 'Sta5': 5, 'Sta6-acc': 6, 'Sta6-req': 6, 'Sta7': 7, 'Sta8': 8, 'Sta13': 13}
 
 
 def contexts():
@@ -38,6 +41,22 @@ def contexts():
     from pydicom import uid
     return {1: asceprovider.PContextDef(1, uid.UID(convs.VERIF_UID), uid.UID(convs.IMPLICIT)),
             3: asceprovider.PContextDef(3, uid.UID(convs.STORE_UID), uid.UID(convs.IMPLICIT))}
+
+
+def accept_if_indicated(sim):
+    from pynetdicom2 import pdu
+    inds = sim.indications()
+    if sim.state() != 3 or not inds or getattr(inds[-1], 'pdu_type', None) != 1:
+        return None
+    rq = inds[-1]
+    items = [i for i in rq.variable_items if isinstance(i, pdu.ApplicationContextItem)][:1]
+    for i in rq.variable_items:
+        if isinstance(i, pdu.PresentationContextItemRQ):
+            ts = i.ts_sub_items[0] if i.ts_sub_items else pdu.TransferSyntaxSubItem('')
+            items.append(pdu.PresentationContextItemAC(i.context_id, 0, ts))
+    items += [i for i in rq.variable_items if isinstance(i, pdu.UserInformationItem)][:1]
+    return pdu.AAssociateAcPDU(called_ae_title=rq.called_ae_title, calling_ae_title=rq.calling_ae_title,
+                               variable_items=items)
 
 
 def segment(stream, mode):
@@ -66,6 +85,8 @@ def run_stream(state, stream, mode=0, file_backed=True):
     segs = segment(stream, mode)
     for i, sg in enumerate(segs):
         actions.append({'k': 'seg', 'data': sg, 'eager': i > 0})
+    if state == 'Sta2-accepting':
+        actions.append({'k': 'user', 'fn': accept_if_indicated})
     actions += [{'k': 'close', 'eager': False}, {'k': 'tick', 'dt': 11.5}, {'k': 'tick', 'dt': 11.5}]
     kw = {}
     if file_backed:
@@ -107,10 +128,11 @@ def run_stream(state, stream, mode=0, file_backed=True):
             raise Violation('C12:user-not-told', '%s: user saw %r, no abort/reject/release confirmation' % (state, kinds), case)
     # (6) certainly-undecodable first frame => A-ABORT (+ provider abort indication)
     frames, rest = refpdu.split_stream(stream)
-    hostile_first = bool(frames) and mutate.certainly_undecodable(frames[0])
+    hostile_first = bool(frames) and (mutate.certainly_undecodable(frames[0]) or
+                                      (mutate.invalid_pdata(frames[0]) and state != 'Sta13'))
     if hostile_first:
         # PDUs written after the prefix
-        npre = {'Sta2': 0, 'Sta3': 0, 'Sta5': 1, 'Sta6-acc': 1, 'Sta6-req': 1, 'Sta7': 2, 'Sta8': 1, 'Sta13': 2}[state]
+        npre = {'Sta2': 0, 'Sta2-accepting': 0, 'Sta3': 0, 'Sta5': 1, 'Sta6-acc': 1, 'Sta6-req': 1, 'Sta7': 2, 'Sta8': 1, 'Sta13': 2}[state]
         after = pdus[npre:]
         if not after or after[0]['t'] != 7:
             raise Violation('C12:no-abort', '%s: undecodable PDU (type %02XH, %d body bytes) not answered with A-ABORT; '
@@ -307,7 +329,7 @@ def run_atheris(ctx, shards, runs):
 
 def run(ctx):
     warnings.simplefilter('ignore')
-    ctx.rule = ('for each of 8 protocol-state prefixes (Sta2, 3, 5, 6 both roles, 7, 8, 13): structure-aware mutations '
+    ctx.rule = ('for each of 9 protocol-state prefixes (Sta2 with a silent and with an accepting local user, 3, 5, 6 both roles, 7, 8, 13): structure-aware mutations '
                 'of 9 valid PDUs (truncation with/without fixed length, every length field set to 0/1/len-1/len+1/'
                 'FFFF/FFFFFFFF, type bytes at every nesting level, control header, context id, non-ASCII bytes), 20 '
                 'semantically hostile P-DATA-TF PDUs, Hypothesis random mixes of garbage / valid / bit-flipped PDUs, '
@@ -317,14 +339,15 @@ def run(ctx):
     ctx.assumptions = ['leniently accepted malformed frames are fine as long as the loop survives, output is '
                        'well-formed, the user is told and the provider ends idle and closed',
                        'A-ABORT is demanded only for certainly undecodable frames (unknown type; body shorter than '
-                       'the fixed part) arriving first in the hostile stream',
+                       'the fixed part; a P-DATA-TF PDV without or with an invalid message control header) arriving first in '
+                       'the hostile stream',
                        'declared lengths that are never delivered are followed by the peer closing (no 4 GiB streams)']
     nstreams = len(corpus_streams())
     parallel(ctx, run_mutators, [{'part': i, 'of': 16, 'all_states': ctx.thorough} for i in range(16)])
     ctx.label('mutated-streams', nstreams)
     if ctx.thorough:
-        parallel(ctx, shard_random, [{'n': 4000} for _ in range(16)])
-        run_atheris(ctx, 16, 20000)
+        parallel(ctx, shard_random, [{'n': 10000} for _ in range(16)])
+        run_atheris(ctx, 16, 100000)
     else:
         parallel(ctx, shard_random, [{'n': 120} for _ in range(12)])
 
